@@ -557,8 +557,8 @@ PARAMS = {
         l3_sources="ix",
         core2=["g5"],
         un3_ops=[],
-        bin3_ops=["mul"],
-        r_size=300,
+        bin3_ops=[],
+        r_size=240,
     ),
 }
 
@@ -677,6 +677,9 @@ class Universe:
         want = max(0, P["r_size"] - len(head))
         stride = max(1, len(rest) // max(1, want))
         self.R = sorted(head + rest[::stride][:want])
+        # sorted_expr law: additionally every indexing variant of every terminal
+        ixt = [k for k in range(self.n) if self.recipes[k][0] == "ix" and self.recipes[k][1][0] == "t"]
+        self.Rsort = sorted(set(self.R) | set(ixt))
 
 
 # =====================================================================================================
@@ -698,6 +701,12 @@ def setup(tier):
     ids = {}
     key = G["nfA"] if ALPHA_STRICT else G["nfE"]["W0"]
     G["cls"] = np.array([ids.setdefault(s, len(ids)) for s in key], dtype=np.int64)
+    # UFL's == (expr_equals) overwrites the operands of its left argument when it answers True, and it is blind to
+    # BaseFormOperator data: keep the operand tuples of those universe members to restore them
+    G["saved_operands"] = [
+        x.ufl_operands if (not x._ufl_is_terminal_ and "ExternalOperator" in s and not isinstance(x, BaseFormOperator)) else None
+        for x, s in zip(U.objs["W0"], G["nfA"])
+    ]
     return U
 
 
@@ -752,10 +761,12 @@ class Cands:
             for fam in sorted(self.tot)
             for ks, what, world, extra in self.keep.get(fam, [])
         ]
-        for fam in sorted(self.tot):
+        for nfam, fam in enumerate(sorted(self.tot)):
             run.count("violations:" + fam, self.tot[fam])
             law = fam.split(":", 1)[0]
-            for ks, what, world, extra in self.keep.get(fam, []):
+            # all families are counted; witnesses: KEEP for the first 30 families, 1 for the next 70, then none
+            nkeep = KEEP if nfam < 30 else (1 if nfam < 100 else 0)
+            for ks, what, world, extra in self.keep.get(fam, [])[:nkeep]:
                 key = f"{fam}:" + "|".join(kname(k) for k in ks) + ("" if world == "W0" else "@" + world)
                 run.violation(key, f"[{self.tot[fam]} cases in family {fam}] {what}", wit(law, ks, world, **extra))
 
@@ -1031,18 +1042,21 @@ def comm_law(law, opf, a, b, distinguishable, cmp_ab, part):
             part.error(f"{law}:{ex}")
             if ex != ey:
                 part.count(f"{law}:both_raise_different_types")
-            return "raised", None
-        return f"viol:one order raises {ex or ey}, the other builds an expression", x
+            return "raised", (None, None)
+        return f"viol:one order raises {ex or ey}, the other builds an expression", (x, None)
     part.inc("validated")
+    # NB: a successful UFL == overwrites the operands of its left argument, so look at x before comparing
+    f0 = first_of(x, a, b)
+    rx = repr(x) if (distinguishable and cmp_ab == 0 and f0 is not None) else None
     if same_expr(x, y):
         # tie of distinguishable operands + stable sort: the results hold the operands in different order;
         # if UFL's == still says equal, it is blind to the difference (reprs decide)
-        if distinguishable and cmp_ab == 0 and first_of(x, a, b) is not None and repr(x) != repr(y):
-            return "viol:results differ (repr) although UFL == is blind to it", x
-        return "ok", x
+        if rx is not None and rx != repr(y):
+            return "viol:results differ (repr) although UFL == is blind to it", (x, f0)
+        return "ok", (x, f0)
     if not distinguishable:
-        return "excused", x
-    return "viol:results are not structurally equal", x
+        return "excused", (x, f0)
+    return "viol:results are not structurally equal", (x, f0)
 
 
 def pair_laws(a, b, distinguishable, cmp_ab, part, others=()):
@@ -1054,7 +1068,7 @@ def pair_laws(a, b, distinguishable, cmp_ab, part, others=()):
     nontrivial = False
     sa, sb = a.ufl_shape, b.ufl_shape
     # ---- sum
-    st, x = comm_law("sum", lambda p, q: p + q, a, b, distinguishable, cmp_ab, part)
+    st, (x, f0) = comm_law("sum", lambda p, q: p + q, a, b, distinguishable, cmp_ab, part)
     part.outcome("sum:" + st.split(":")[0] + ":" + type(x).__name__)
     if st.startswith("viol"):
         out.append(("sum", "a+b vs b+a: " + st[5:]))
@@ -1062,18 +1076,18 @@ def pair_laws(a, b, distinguishable, cmp_ab, part, others=()):
         part.count("sum:excused_differs")
     if x is not None and isinstance(x, Sum) and distinguishable:
         nontrivial = True
-    out += ctor_numbering("sum", lambda p, q: p + q, x, a, b, distinguishable, cmp_ab, others, part)
+    out += ctor_numbering("sum", lambda p, q: p + q, f0, a, b, distinguishable, cmp_ab, others, part)
     # ---- product
     if sa == () and sb == ():
-        st, x = comm_law("prod", lambda p, q: p * q, a, b, distinguishable, cmp_ab, part)
+        st, (x, f0) = comm_law("prod", lambda p, q: p * q, a, b, distinguishable, cmp_ab, part)
         part.outcome("prod:" + st.split(":")[0] + ":" + type(x).__name__)
         if st.startswith("viol"):
             out.append(("prod", "a*b vs b*a: " + st[5:]))
         if st == "excused":
             part.count("prod:excused_differs")
-        if x is not None and first_of(x, a, b) is not None and distinguishable:
+        if x is not None and f0 is not None and distinguishable:
             nontrivial = True
-        out += ctor_numbering("prod", lambda p, q: p * q, x, a, b, distinguishable, cmp_ab, others, part)
+        out += ctor_numbering("prod", lambda p, q: p * q, f0, a, b, distinguishable, cmp_ab, others, part)
     elif sa == () or sb == ():
         # scalar * tensor: ComponentTensor over fresh indices, equal up to renaming those
         x, ex = attempt(lambda p, q: p * q, a, b)
@@ -1155,13 +1169,10 @@ def pair_laws(a, b, distinguishable, cmp_ab, part, others=()):
     return out, nontrivial
 
 
-def ctor_numbering(law, opf, x0, a, b, distinguishable, cmp_ab, others, part):
+def ctor_numbering(law, opf, f0, a, b, distinguishable, cmp_ab, others, part):
     """The constructor puts the same operand first in the renumbered worlds; it is the cmp_expr-smaller one."""
     out = []
-    if x0 is None or not distinguishable:
-        return out
-    f0 = first_of(x0, a, b)
-    if f0 is None:
+    if f0 is None or not distinguishable:
         return out
     if not (isinstance(a, ScalarValue) or isinstance(b, ScalarValue)) and cmp_ab in (-1, 1):
         part.inc("validated")
@@ -1191,6 +1202,7 @@ def w_pairs(rows):
     stable = G["stable"]
     cands = Cands()
     oworlds = [w.name for w in G["worlds"][1:]]
+    saved = G["saved_operands"]
     for ia in rows:
         a = objs[ia]
         for ib in range(ia + 1, U.n):
@@ -1203,8 +1215,16 @@ def w_pairs(rows):
             part.inc("states")
             if nontrivial:
                 part.inc("nontrivial")
-            for law, what in res:
-                cands.add(law, cause_tag((a, b)), (ia, ib), what)
+            if res:
+                # tag on rebuilt copies: a successful UFL == (also inside Inner.__new__) overwrites operands
+                W0 = G["worlds"][0]
+                tag = cause_tag((try_build(U.recipes[ia], W0), try_build(U.recipes[ib], W0)))
+                for law, what in res:
+                    cands.add(law, tag, (ia, ib), what)
+            if saved[ia] is not None:
+                a.ufl_operands = saved[ia]
+            if saved[ib] is not None:
+                b.ufl_operands = saved[ib]
             if (ia * 7919 + ib) % 200003 == 0:
                 part.sample({"a": show(U.recipes[ia]), "b": show(U.recipes[ib]), "cmp": int(M0[ia, ib]),
                              "a+b": short(nf(attempt(lambda p, q: p + q, a, b)[0], G["worlds"][0], "alpha"), 200)
@@ -1268,7 +1288,8 @@ def w_triples(rows):
     part = Part()
     U = G["U"]
     objs = U.objs["W0"]
-    R = U.R
+    R = U.Rsort
+    inctor = set(U.R)
     cls = G["cls"]
     M0 = G["M0"]
     idx = {id(objs[k]): k for k in R}
@@ -1296,8 +1317,11 @@ def w_triples(rows):
                 msg = sorted3_law(a, b, c, cmpf)
                 if msg:
                     cands.add("sorted3", cause_tag((a, b), (b, c), (a, c)), (ia, ib, ic), msg)
+                if not (ia in inctor and ib in inctor and ic in inctor):
+                    continue
                 if not (a.ufl_shape == b.ufl_shape == c.ufl_shape):
                     continue
+                part.count("triples_R_constructor_laws")
                 alld = len({cls[ia], cls[ib], cls[ic]}) == 3
                 for law, opf in (("sum3", lambda p, q: p + q), ("prod3", lambda p, q: p * q)):
                     if law == "prod3" and a.ufl_shape != ():
@@ -1369,7 +1393,7 @@ def main(argv):
         cands.merge(d["cands"])
     tph.append(time.time())
     # ---- phase 4
-    for d in pmap(w_triples, list(range(len(U.R))), seed=run.seed, chunks_per_proc=8):
+    for d in pmap(w_triples, list(range(len(U.Rsort))), seed=run.seed, chunks_per_proc=8):
         run.merge(d)
         cands.merge(d["cands"])
     tph.append(time.time())
@@ -1380,6 +1404,7 @@ def main(argv):
     # ---- bookkeeping
     run.evaluations = run.validated
     nR = len(U.R)
+    nS = len(U.Rsort)
     run.bounds = {
         "universe_size": n,
         "levels(0..3)": U.levels,
@@ -1391,8 +1416,10 @@ def main(argv):
         "ordered_pairs_per_world": n * n,
         "ordered_triples_per_world(matrix laws)": n**3,
         "unordered_pairs(constructor laws)": n * (n - 1) // 2,
-        "reduced_universe_R": nR,
-        "unordered_triples_R(sorted_expr x6 perms, sum3/prod3)": nR * (nR - 1) * (nR - 2) // 6,
+        "reduced_universe_Rsort(terminals, extras, every indexed terminal, strided rest)": nS,
+        "unordered_triples_Rsort(sorted_expr on all 6 permutations)": nS * (nS - 1) * (nS - 2) // 6,
+        "reduced_universe_Rctor(terminals, extras, strided rest)": nR,
+        "unordered_triples_Rctor(sum3/prod3 where shapes agree)": nR * (nR - 1) * (nR - 2) // 6,
         "params": {k: v for k, v in PARAMS[tier].items()},
         "comb": "level 1: indexing variants of every tensor terminal, unary ops on un1_targets, binary ops on core0 x core0, "
         "fixed extras; level 2: light indexing + un2_ops on all of level 1, bin2_ops level1 x core1 in both orders; "
@@ -1498,7 +1525,12 @@ def replay(run):
         raise RuntimeError(f"harness: unknown law {law}")
     print("law:", law, "->", "REPRODUCED: " + fired if fired else "not reproduced")
     run.states = 1
+    run.transitions = max(1, part.d["transitions"])
     run.validated = 1
+    run.evaluations = 1
+    run.nontrivial = 1
+    run.rule = "replay of one witness"
+    run.sample({"law": law, "operands": [show(r) for r in recs], "reproduced": bool(fired)})
     if fired:
         run.violation(rp["key"], fired, w)
     run.finish()
